@@ -90,6 +90,9 @@ CUSTOM = [
 ]
 
 
+STATS = {}
+
+
 def load_table():
     if TABLE.exists():
         return json.loads(TABLE.read_text())
@@ -227,6 +230,10 @@ def run(prop, root=None):
           + (f', {len(failures)} FAILURES' if failures else ''))
     for f in failures[:20]:
         print(f'ANALYSIS-ERROR property={prop} selftest: {f}')
+    STATS.clear()
+    STATS.update({'seeded_breaks_reported': nb, 'benign_twins_silent': nt, 'seeds_not_applicable': missing, 'seeds_total': total,
+                  'independent_seeded_changes_reported': ncb, 'independent_benign_refactorings_silent': nct,
+                  'independent_benign_refactorings_unrecognised_exit2': nct2, 'failures': failures[:20]})
     if total and missing * 2 > total:
         print(f'ANALYSIS-ERROR property={prop} selftest: more than half of the seeds no longer apply')
         return 2
